@@ -109,9 +109,27 @@ def r1_filter_dominance(ctx):
         ok = ok and chain and cols == {('p', 2)} and boards == {'&*arg1'}
         after = o.events[o.events.index(calls[-1]) + 1:] if calls else []
         ok = ok and not [e for e in after if e[0] == 'call' and ('push' in e[1] or 'append' in e[1] or 'insert' in e[1])]
+    # nothing else may touch the list between generation and the filter: a pre-filter that drops candidates "that cannot be legal anyway"
+    # (or adds some) decides legality without the simulation
+    touched = []
+    for o in outs:
+        gen_calls = [e for e in o.events if e[0] == 'call' and e[1] in opaque]
+        if not gen_calls:
+            continue
+        lst = gen_calls[0][2][0]
+        for e in o.events:
+            if e[0] == 'retain' and strip_refs(e[4]) == strip_refs(lst):
+                touched.append('retain on the candidate list')
+            elif e[0] == 'adapter' and e[1] in ('retain', 'retain_mut', 'extend') and strip_refs(e[3]) == strip_refs(lst):
+                touched.append('%s on the candidate list' % e[1])
+            elif e[0] == 'call' and e[1] not in opaque and any(a == lst for a in e[2]):
+                touched.append(e[1].rsplit('::', 1)[-1] + ' on the candidate list')
+    ok = ok and not touched
     ctx.ob(rule, name, 'five generators, then remove_invalid_moves last, all on the same list/board/colour', ok,
-           found=[[e[1].rsplit('::', 1)[-1] for e in o.events if e[0] == 'call' and e[1] in opaque] for o in rets][:1],
-           expected=gens + ['remove_invalid_moves'], why='a generator that runs after (or bypasses) the filter lets moves through that leave the king in check')
+           found=[[e[1].rsplit('::', 1)[-1] for e in o.events if e[0] == 'call' and e[1] in opaque] for o in rets][:1] + sorted(set(touched))[:3],
+           expected=gens + ['remove_invalid_moves'] + ['nothing else touches the list'],
+           why='a generator that runs after (or bypasses) the filter lets moves through that leave the king in check; a pre-filter between generation '
+               'and simulation removes legal moves it did not think of (the en-passant capture of a checking pawn does not land on the checker\'s square)')
     pm = facts.need_fn(MGM + 'generate_pawn_moves')
     callees = {facts.callee_name(t) for b, t in pm.calls()}
     ctx.ob(rule, pm.name, 'pawn generation includes en-passant generation', MGM + 'generate_en_passant_moves' in callees,
